@@ -1,3 +1,5 @@
+import PV.Model.ReaderFallback
+import PV.Lemmas.ReaderFallback
 import PV.Model.Reader
 import PV.Spec.Records
 import PV.Lemmas.Reader
@@ -56,6 +58,20 @@ theorem splitRecords_lossless (delim : UInt8) (bs : List UInt8) :
     (splitRecords delim false (bs ++ [delim])).flatMap (· ++ [delim]) = bs ++ [delim] := by
   have := PV.Lemmas.Reader.splitGo_lossless delim bs []
   simpa [splitRecords] using this
+
+/-- A regular file whose `mapsLeft`-th and later `mmap` calls fail (at the first window, at any later window, in
+    the middle of a record), read with any schedule of short reads afterwards, yields exactly the records of the
+    bytes from the start offset: nothing is lost, duplicated or reordered at the transition. -/
+theorem fallback_records (delim : UInt8) (stripCr : Bool) (file : List UInt8) (page cap0 start mapsLeft : Nat)
+    (sched : List Nat) (hpage : 0 < page) (hcap : 0 < cap0) (hdvd : page ∣ cap0) (hstart : start ≤ file.length) :
+    recordsFallback delim stripCr file page cap0 start mapsLeft sched
+      = some (splitRecords delim stripCr (file.drop start)) := by
+  obtain ⟨s', e, _, _⟩ := PV.Lemmas.ReaderFallback.readAll_fallback delim stripCr file page cap0 start mapsLeft
+    sched hpage hcap hdvd hstart
+  simp [recordsFallback, e]
+
+-- non-vacuity: a 2-byte page, the second mapping fails in the middle of the record "bcd"
+example : recordsFallback 10 true [97, 10, 98, 99, 100, 10, 101] 2 4 0 1 [1, 1] = some [[97], [98, 99, 100], [101]] := by decide
 
 -- non-vacuity
 example : recordsRead 10 true 4 [97, 13, 10, 98, 10, 10, 99] [1, 2, 1, 3] = some [[97], [98], [], [99]] := by
